@@ -37,10 +37,12 @@ type Coin struct {
 // Funded is a synced, unlocked wallet with a ledger of its coins.
 type Funded struct {
 	*H
-	Coins    map[wire.OutPoint]*Coin
-	Acct1    uint32
-	Maturity int32
-	Pending  []*wire.MsgTx // published by the wallet, not yet mined
+	Coins map[wire.OutPoint]*Coin
+	Acct1 uint32
+	// ImportedKeys: address (as the wallet encodes it) -> the private key imported for it
+	ImportedKeys map[string]*btcec.PrivateKey
+	Maturity     int32
+	Pending      []*wire.MsgTx // published by the wallet, not yet mined
 }
 
 var FundScopes = []waddrmgr.KeyScope{waddrmgr.KeyScopeBIP0084, waddrmgr.KeyScopeBIP0049Plus, waddrmgr.KeyScopeBIP0086, waddrmgr.KeyScopeBIP0044}
@@ -162,6 +164,10 @@ func (f *Funded) FundImportedKey(rg *rand.Rand, sc waddrmgr.KeyScope, n int) err
 	if err != nil {
 		return fmt.Errorf("ImportPrivateKey: %w", err)
 	}
+	if f.ImportedKeys == nil {
+		f.ImportedKeys = map[string]*btcec.PrivateKey{}
+	}
+	f.ImportedKeys[addrStr] = priv
 	a, err := btcutil.DecodeAddress(addrStr, f.Params)
 	if err != nil {
 		return err
